@@ -48,9 +48,14 @@ class Term:
         return show(self)
 
     def walk(self):
+        """every distinct sub-term once (terms are DAGs with heavy sharing)"""
         stack = [self]
+        seen = set()
         while stack:
             t = stack.pop()
+            if id(t) in seen:
+                continue
+            seen.add(id(t))
             yield t
             for a in t.args:
                 if isinstance(a, Term):
@@ -299,6 +304,20 @@ class Order:
         diff = a - b
         if diff.is_const():
             return -1 if diff.c < 0 else 1
+        # size symbols are >= 1: a linear form with one-signed coefficients has a sign
+        if all(isinstance(at, str) for at, _ in diff.lin):
+            if all(k > 0 for _, k in diff.lin):
+                lo = sum(k for _, k in diff.lin) + diff.c
+                if lo > 0:
+                    return 1
+                if lo == 0:
+                    return 3
+            if all(k < 0 for _, k in diff.lin):
+                hi = sum(k for _, k in diff.lin) + diff.c
+                if hi < 0:
+                    return -1
+                if hi == 0:
+                    return 2
         if (a, b) in self.lt:
             return -1
         if (b, a) in self.lt:
